@@ -14,6 +14,9 @@ func normalizeInvoice(inv *bill.Invoice) {
 	normalizeParty(inv.Supplier)
 	normalizeParty(inv.Customer)
 	for _, line := range inv.Lines {
+		if line == nil {
+			continue
+		}
 		normalizeItem(line.Item)
 	}
 
